@@ -24,6 +24,22 @@ func VerifHarness_C10_RoundTrip() {
 		verifAssert(verifBigEq(x, verifProofCoord(p.Proof, i)), "JSON entry i is coordinate i in the order A.x A.y B.x1 B.x0 B.y1 B.y0 C.x C.y")
 	}
 
+	// a second proof marshalled afterwards in the same process must not be influenced by the first (stale scratch state)
+	if verifParam("second", 1) == 1 {
+		var p2 Proof
+		p2.Proof = verifStubProof("proof2")
+		js2, err2 := p2.MarshalJSON()
+		verifAssert(err2 == nil, "second MarshalJSON returns no error")
+		var pj2 ProofJSON
+		err2 = json.Unmarshal(js2, &pj2)
+		verifAssert(err2 == nil, "the second JSON document has the ar/bs/krs shape")
+		var y big.Int
+		_, ok2 := y.SetString(pj2.Ar[0], 0)
+		verifAssert(ok2 && verifBigEq(y, verifProofCoord(p2.Proof, 0)), "a proof marshalled after another one carries its own coordinates")
+		_, ok2 = y.SetString(pj2.Krs[1], 0)
+		verifAssert(ok2 && verifBigEq(y, verifProofCoord(p2.Proof, 7)), "a proof marshalled after another one carries its own last coordinate")
+	}
+
 	var q Proof
 	err = q.UnmarshalJSON(js)
 	verifAssert(err == nil, "UnmarshalJSON accepts the marshalled proof")
